@@ -224,7 +224,7 @@ type audOp struct {
 	cid    int
 	from   int    // 0,1 Inner Ring members; 2 not a member
 	ver    int    // trailing payload variant (same id, other content)
-	signer string // own | S
+	signer string // own | S | other (the other Inner Ring member: a member's witness, but not the auditor's)
 }
 
 type AudDriver struct {
@@ -249,7 +249,8 @@ func NewAudDriver(tier string) *AudDriver {
 		}
 		d.ops = append(d.ops, audOp{e, 0, 1, 0, "own"})
 	}
-	d.ops = append(d.ops, audOp{1, 0, 0, 1, "own"}, audOp{1, 0, 2, 0, "own"}, audOp{1, 0, 0, 0, "S"}, audOp{257, 1, 2, 0, "own"})
+	d.ops = append(d.ops, audOp{1, 0, 0, 1, "own"}, audOp{1, 0, 2, 0, "own"}, audOp{1, 0, 0, 0, "S"}, audOp{257, 1, 2, 0, "own"},
+		audOp{1, 0, 0, 0, "other"}, audOp{1, 0, 1, 0, "other"})
 	return d
 }
 
@@ -305,6 +306,9 @@ func (d *AudDriver) Step(x *Exec, n *Node, i int) StepResult {
 	signer := d.nodes[o.from].Hash
 	if o.signer == "S" {
 		signer = w.Acct("S").Hash
+	}
+	if o.signer == "other" {
+		signer = d.nodes[1-o.from].Hash
 	}
 	blob := d.blob(o)
 	obs, nn := x.Do(n, Call{Script: Script(h, "put", blob), Signers: []util.Uint160{signer}, Label: d.OpName(n, i)})
@@ -637,14 +641,23 @@ type estOp struct {
 }
 
 type EstDriver struct {
+	Base  int64 // epoch of the base state (10 unless set): the relative puts and the cleanup straddle it
 	ops   []estOp
 	nodes []*Account // 0,1 in the network map; 2 not
 	cids  [][]byte
 	eps   []int64
 }
 
+// NewEstDriverAt places the base state at another epoch, so that the puts relative to it and the two cleanup
+// deltas run where the epoch's byte encoding changes length (127/128, 255/256).
+func NewEstDriverAt(tier string, base int64) *EstDriver {
+	d := NewEstDriver(tier)
+	d.Base = base
+	return d
+}
+
 func NewEstDriver(tier string) *EstDriver {
-	d := &EstDriver{}
+	d := &EstDriver{Base: 10}
 	abs := []int64{0, 1, 256, 257}
 	if tier == "thorough" {
 		abs = []int64{0, 1, 127, 128, 255, 256, 257, 65536}
@@ -659,6 +672,7 @@ func NewEstDriver(tier string) *EstDriver {
 	d.ops = append(d.ops, estOp{kind: "put", e: 0, rel: true, cid: 0, node: 0, size: 11}, estOp{kind: "put", e: 0, rel: true, cid: 1, node: 0, size: 10},
 		estOp{kind: "putNoWitness", e: 0, rel: true, cid: 0, node: 0, size: 10}, estOp{kind: "putStranger", e: 0, rel: true, cid: 0, node: 2, size: 10},
 		estOp{kind: "putUnknownContainer", e: 0, rel: true, cid: 0, node: 0, size: 10}, estOp{kind: "tick"},
+		estOp{kind: "putOtherNode", e: 0, rel: true, cid: 0, node: 0, size: 10},
 		// node 3 joined with the latest tick (in the current map only), node 4 left with it (in the previous map only)
 		estOp{kind: "put", e: 0, rel: true, cid: 0, node: 3, size: 33}, estOp{kind: "put", e: 0, rel: true, cid: 0, node: 4, size: 44})
 	return d
@@ -683,8 +697,8 @@ func (d *EstDriver) Build() *World {
 	}
 	// epoch 10: large enough for relative epochs down to cur-4; nodes 0 and 1 are in every map,
 	// node 4 leaves and node 3 joins with the last tick
-	for e := int64(1); e <= 10; e++ {
-		if e == 10 {
+	for _, e := range []int64{1, 2, 3, 4, 5, 6, 7, 8, d.Base - 1, d.Base} {
+		if e == d.Base {
 			w.Invoke(nm, al, "updateStateIR", int64(2), d.nodes[4].Pub())
 			w.Invoke(nm, al, "addPeerIR", info(3))
 		}
@@ -696,7 +710,7 @@ func (d *EstDriver) Build() *World {
 }
 func (d *EstDriver) Init(*World) Model {
 	// "prev"/"cur": the members of the previous and the current network map
-	return &kvModel{m: map[string][]string{"prev": {"0", "1", "4"}, "cur": {"0", "1", "3"}}, epoch: 10}
+	return &kvModel{m: map[string][]string{"prev": {"0", "1", "4"}, "cur": {"0", "1", "3"}}, epoch: d.Base}
 }
 func (d *EstDriver) NumOps() int { return len(d.ops) }
 func (d *EstDriver) abs(m *kvModel, o estOp) int64 {
@@ -715,7 +729,7 @@ func (d *EstDriver) OpName(n *Node, i int) string {
 }
 func (d *EstDriver) Enabled(n *Node, i int) bool {
 	m := n.M.(*kvModel)
-	return d.ops[i].kind != "tick" || m.epoch < 16
+	return d.ops[i].kind != "tick" || m.epoch < d.Base+6
 }
 
 func estKeyOf(e int64, cid, node int) string { return fmt.Sprintf("%d/%d/%d", e, cid, node) }
@@ -761,6 +775,8 @@ func (d *EstDriver) Step(x *Exec, n *Node, i int) StepResult {
 		switch o.kind {
 		case "putNoWitness":
 			signer = w.Acct("S").Hash
+		case "putOtherNode":
+			signer = d.nodes[1-o.node].Hash // a node of the map, but not the one whose key is announced
 		case "putUnknownContainer":
 			cid = make([]byte, 32)
 		}
@@ -843,7 +859,7 @@ func (d *EstDriver) Step(x *Exec, n *Node, i int) StepResult {
 					continue
 				}
 				ke, kc, _ := parse(k)
-				if properPrefixEpoch(e, ke) && strings.Contains(extra, Hx(d.cids[kc])) {
+				if properPrefixEpoch(e, ke) && extra == fmt.Sprint(NX(append(append([]byte("cnr"), leInt(ke)...), d.cids[kc]...))) {
 					return true
 				}
 			}
@@ -872,25 +888,21 @@ func (d *EstDriver) Step(x *Exec, n *Node, i int) StepResult {
 		sort.Strings(gotAll)
 		sort.Strings(wantAll)
 		if fmt.Sprint(gotAll) != fmt.Sprint(wantAll) {
-			// extras must be explained by the prefix relation
-			extraOK := len(gotAll) > len(wantAll)
-			if extraOK {
-				for k := range nm.m {
-					if k == "prev" || k == "cur" {
-						continue
-					}
-					if ke, _, _ := parse(k); properPrefixEpoch(e, ke) {
-						extraOK = true
-						goto known
-					}
+			// the known finding explains exactly one surplus: the estimations stored under epochs whose encoding
+			// starts with LE(e); the answer must be the model's list plus precisely those
+			explAll := append([]string{}, wantAll...)
+			for k, v := range nm.m {
+				if k == "prev" || k == "cur" || len(v) == 0 {
+					continue
 				}
-				extraOK = false
+				if ke, _, kn := parse(k); properPrefixEpoch(e, ke) {
+					explAll = append(explAll, estItem(kn, v[0]))
+				}
 			}
-		known:
-			miss, _, _ := supersetExplained(gotAll, wantAll, func(string) bool { return true })
-			if !extraOK || len(miss) > 0 {
+			sort.Strings(explAll)
+			if len(explAll) == len(wantAll) || fmt.Sprint(gotAll) != fmt.Sprint(explAll) {
 				where["method"], where["epoch"] = "iterateAllContainerSizes", e
-				return viol("list-wrong", fmt.Sprintf("iterateAllContainerSizes(%d) = %v, model %v", e, gotAll, wantAll))
+				return viol("list-wrong", fmt.Sprintf("iterateAllContainerSizes(%d) = %v, model %v (with the entries of prefix-related epochs: %v)", e, gotAll, wantAll, explAll))
 			}
 			soft = append(soft, Viol("list-superset", fmt.Sprintf("container.iterateAllContainerSizes(%d) also returns estimations of other epochs whose encoding starts with LE(%d)", e, e),
 				map[string]any{"contract": "container", "method": "iterateAllContainerSizes", "relation": "LE(epoch) is a proper byte-prefix of LE(epoch')"}))
